@@ -7,17 +7,20 @@ ENGINE = "HISTX"
 BUILDS = ("pure", "compiled")
 TECHNIQUE = "explicit-state BFS over operation histories on the real objects vs reference state machine"
 KINDS = ["fut_ret", "fut_raise", "const", "errfut", "at0_ret", "at0_raise", "at1_ret", "at1_raise",
-         "batch_ok", "batch_raise", "item_ok", "item_err"]
+         "batch_ok", "batch_raise", "item_ok", "item_err",
+         # the same failing kinds with an error whose truth value is False (an error must be recognised by `is not None`)
+         "fut_raise_falsy", "errfut_falsy", "at0_raise_falsy", "at1_raise_falsy", "batch_raise_falsy", "item_err_falsy"]
 OPS = [("value",), ("error",), ("call",), ("is_computed",), ("set_value", "v1"), ("set_value", "v2"),
        ("set_error", "e1"), ("set_error", "e2"), ("reset_unsafe",), ("sub", "good"), ("sub", "bad"),
        ("sub", "oneshot")]  # oneshot: a well-behaved callback that unsubscribes itself when notified
 TAIL = [("is_computed",), ("error",), ("value",), ("call",), ("set_value", "v2"), ("set_error", "e2"),
         ("is_computed",), ("value",), ("error",)]
 DEPTH = {"quick": 5, "thorough": 7}
-RULE = ("for each of 12 object kinds (Future with returning / raising provider, ConstFuture, ErrorFuture, AsyncTask "
+RULE = ("for each of 18 object kinds (Future with returning / raising provider, ConstFuture, ErrorFuture, AsyncTask "
         "without a yield returning / raising, AsyncTask yielding one harness batch item then returning / raising, "
         "harness BatchBase subclass with returning / raising flush body, harness batch item whose batch sets its value / "
-        "its error) ALL histories over the 12-operation alphabet {value(), error(), f(), is_computed(), set_value(v1|v2), "
+        "its error; each of the 6 failing kinds also with an exception whose truth value is False; e2 is such an "
+        "exception too) ALL histories over the 12-operation alphabet {value(), error(), f(), is_computed(), set_value(v1|v2), "
         "set_error(e1|e2), reset_unsafe(), subscribe well-behaved callback, subscribe callback raising Exception, subscribe one-shot callback that unsubscribes itself when notified} up to "
         "length 5 (quick) / 7 (thorough) are explored breadth-first on fresh real objects, merging histories only when "
         "(R4 state, is_computed(), _value, _error, per-subscriber notification counts, provider run count, generator / "
@@ -29,7 +32,11 @@ RULE = ("for each of 12 object kinds (Future with returning / raising provider, 
 EXPLANATION = ("breadth-first explicit-state search over operation histories replayed on fresh real futures, every step "
                "compared with the plain-Python three-state reference machine R4")
 ASSUMPTIONS = [
-    "operations are applied from outside the future, one after the other, on one thread; callbacks only observe",
+    "operations are applied from outside the future, one after the other, on one thread; callbacks only observe (the one-shot "
+    "callback additionally unsubscribes itself: from then on it is no longer a subscriber and must not be notified again, "
+    "while the subscribers after it in the list must still be notified by that same completion)",
+    "an outcome that is an error is that very exception object whatever its truth value (falsy kinds / e2: exception "
+    "classes defining __len__ -> 0)",
     "the answer of the call that performs the computation is only required to convey the outcome (error() may return or raise it)",
     "ConstFuture/ErrorFuture use a sinking event hook: subscribing is a no-op by design, notification is not judged for them",
     "what a future without a (remaining) computation does when asked for its value after reset_unsafe() is not judged; "
@@ -132,7 +139,12 @@ class World(object):
         H = _harness()
         histx.reset_asynq()
         self.H = H
+        self.label = kind
+        self.falsy = kind.endswith("_falsy")
+        if self.falsy:
+            kind = kind[:-len("_falsy")]
         self.kind = kind
+        self.ErrCls = histx.HFalsyErr if self.falsy else HErr
         self.T = Tokens(H.none)
         self.keep = []
         self.trouble = []
@@ -158,7 +170,7 @@ class World(object):
             st0 = ("v", "c0")
             self.judge_notify = False
         elif kind == "errfut":
-            self.obj = ErrorFuture(self.T.reg(HErr("ce0"), "ce0"))
+            self.obj = ErrorFuture(self.T.reg(self.ErrCls("ce0"), "ce0"))
             st0 = ("e", "ce0")
             self.judge_notify = False
         elif kind in ("at0_ret", "at0_raise"):
@@ -188,7 +200,7 @@ class World(object):
 
     def finish_run(self, n, raising):
         if raising:
-            e = self.T.reg(HErr(("pe", n)), ("pe", n))
+            e = self.T.reg(self.ErrCls(("pe", n)), ("pe", n))
             self.runs[n] = ("e", ("pe", n))
             raise e
         v = self.T.reg(Val(("pv", n)), ("pv", n))
@@ -217,7 +229,7 @@ class World(object):
         if it.is_computed():
             return
         if k == "item_err":
-            e = self.T.reg(HErr(("pe", n)), ("pe", n))
+            e = self.T.reg(self.ErrCls(("pe", n)), ("pe", n))
             self.runs[n] = ("e", ("pe", n))
             it.set_error(e)
         else:
